@@ -1,9 +1,11 @@
 import TlsModel.Proto
 import TlsModel.Negotiate
+import TlsModel.Compat
 /-
   Driver for C03.
     neg <clientSettings> <serverSettings> <clientCfg> <serverCfg>   -> outcome line
     offer <clientSettings> <clientCfg>                              -> the modelled ClientHello
+    compat <clientSettings> <serverSettings> <clientCfg> <serverCfg> -> wf / plainCert / clientHelloSane / commonVersion / compatible
     views <clientSettings> <serverSettings> <clientCfg> <serverCfg> -> clientView / serverView fields
     filter <settings> <minor> <suite,suite,...>                     -> _filterSuites output
     sigs <settings> <privBits|-> <cred|-> <minor>                   -> _sigHashesToList output
@@ -124,6 +126,15 @@ def handle : List String → Option String
         n ++ ".cchain=" ++ b01 (!v.clientChain.isEmpty)
       some (one "c" c ++ " " ++ one "s" s)
     | _ => some "no-selection"
+  | ["compat", cs, ss, cc, sc] => do
+    let cs ← parseSettings cs
+    let ss ← parseSettings ss
+    let cc ← parseClientCfg cc
+    let sc ← parseServerCfg sc
+    some ("wfc=" ++ b01 cs.wf ++ " wfs=" ++ b01 ss.wf ++ " plain=" ++ b01 (plainCert cs cc sc) ++
+          " sane=" ++ b01 (clientHelloSane cs cc) ++
+          " v=" ++ (match commonVersion cs ss with | some v => toString v | none => "-") ++
+          " compat=" ++ b01 (compatible cs ss cc sc))
   | ["offer", cs, cc] => do
     let cs ← parseSettings cs
     let cc ← parseClientCfg cc
